@@ -86,7 +86,9 @@ PlanMods(cfg, tn, path, computed) ==
 CustomTypeOf(cfg, f, path) == IF KVHas(cfg.customtypes, path) THEN KVGet(cfg.customtypes, path) ELSE f.custom
 \* default suffix: the type name without dots and slashes (qualified names of the pool are tabulated: TLC has no
 \* character-level string operations)
-StrippedNames == [x \in {"ext/wrappers.Traits", "wrappers.Traits"} |-> IF x = "ext/wrappers.Traits" THEN "extwrappersTraits" ELSE "wrappersTraits"]
+StrippedNames == [x \in {"ext/wrappers.Traits", "wrappers.Traits", "verif/harness/ext/ct.Label", "verif/harness/ext/ct.Tag"} |->
+                    CASE x = "ext/wrappers.Traits" -> "extwrappersTraits" [] x = "wrappers.Traits" -> "wrappersTraits"
+                      [] x = "verif/harness/ext/ct.Label" -> "verifharnessextctLabel" [] OTHER -> "verifharnessextctTag"]
 SuffixOf(cfg, ct) == IF KVHas(cfg.suffixes, ct) THEN KVGet(cfg.suffixes, ct)
                      ELSE IF ct \in DOMAIN StrippedNames THEN StrippedNames[ct] ELSE ct
 
@@ -125,6 +127,8 @@ RECURSIVE ZeroStruct(_, _)
 ZeroFieldGV(d, f) ==
   IF f.card # "one" THEN Nil
   ELSE IF f.ty = "msg" THEN (IF f.nullable THEN Nil ELSE ZeroStruct(d, f.ref))
+  \* (a group is a pointer to the struct of its type in the Go code)
+  ELSE IF f.ty = "bogus" THEN Nil
   ELSE IF f.ty \in {"timestamp", "duration"} THEN
        (IF f.nullable THEN Nil ELSE Sc(IF f.ty = "timestamp" THEN ZeroTime ELSE "0"))
   ELSE Sc(CASE f.ty \in {"double", "float"} -> "0"
